@@ -4,7 +4,9 @@
 (* bindings (HostAbi!ToVm / FromVm) against the layout compiled Abra code  *)
 (* uses (HostAbi!Lay) for ALL types up to nesting depth MaxDepth built     *)
 (* from int, string, void with array, option, result, 2- and 3-tuples, a   *)
-(* user struct (two fields) and a user enum (no / one / two fields).       *)
+(* user struct (two fields) and a user enum (no / one / two fields); with   *)
+(* WideLast = FALSE the outermost constructor takes only int / void as its *)
+(* other operand and is not a 3-tuple.                                     *)
 (* Every state is one type; the invariant evaluates the laws on the three  *)
 (* representative values HostAbi!ValAt of that type and on two argument    *)
 (* lists containing it.                                                    *)
@@ -23,7 +25,7 @@
 (*                 disagreeing (type, value) pairs are printed at the end. *)
 (***************************************************************************)
 EXTENDS HostAbi, TLCExt
-CONSTANTS MaxDepth, Mode
+CONSTANTS MaxDepth, Mode, WideLast
 VARIABLES t, d
 
 Atoms == {TInt, TStr, TVoid}
@@ -34,9 +36,14 @@ Grow(x) ==
   {TArr(x), TOpt(x)} \cup
   UNION {{TRes(x, p), TRes(p, x), TTup(<<x, p>>), TTup(<<p, x>>), TTup(<<p, x, p>>),
           StructOf(x, p), StructOf(p, x), EnumOf(x, p), EnumOf(p, x)} : p \in Partners}
+\* the outermost level of a deep run: partners int and void only, no 3-tuples (keeps depth 3 within minutes)
+GrowNarrow(x) ==
+  {TArr(x), TOpt(x)} \cup
+  UNION {{TRes(x, p), TRes(p, x), TTup(<<x, p>>), TTup(<<p, x>>),
+          StructOf(x, p), StructOf(p, x), EnumOf(x, p), EnumOf(p, x)} : p \in {TInt, TVoid}}
 
 Init == t \in Atoms /\ d = 0 /\ TLCSet(1, 0) /\ TLCSet(2, 0)
-Next == d < MaxDepth /\ t' \in Grow(t) /\ d' = d + 1
+Next == d < MaxDepth /\ t' \in (IF WideLast \/ d + 1 < MaxDepth THEN Grow(t) ELSE GrowNarrow(t)) /\ d' = d + 1
 
 Defect(ty, v) == ExVoidTuple(ty, v) \/ ExVoidMultiVariant(ty, v)
 ArgLists == <<<<t, TVoid, TInt>>, <<TStr, t>>>>
